@@ -189,6 +189,12 @@ def do_action(E, act):
         return E.T[act[1]].x
     if k == 'lock':
         return lock_load(E, act[1], act[2]).x
+    if k == 'trylock':
+        # the application catches "database is locked" inside the session and goes on (it will retry)
+        try: return lock_load(E, act[1], act[2]).x
+        except Exception as e:
+            if 'database is locked' in str(e): return 'refused'
+            raise
     if k == 'update':
         obj = E.T[act[1]]
         v = obj.x + 1 if act[2] == 'inc' else act[2]
@@ -242,11 +248,21 @@ def run_case(workdir, case):
         try: return {r[0]: r[1] for r in obs.execute('select id, x from t order by id').fetchall()}
         except sqlite3.OperationalError: return None      # a connection sits on a PENDING/EXCLUSIVE lock between two calls
 
+    refuse = case.get('refuse')            # [thread, n]: the n-th BEGIN IMMEDIATE of that thread is refused ("database is locked")
+    if refuse:
+        seen_begins = [0]
+        def refuse_begin(ev):
+            if ev['i'] is not None and ev['kind'] == 'begin' and sched.me() == refuse[0]:
+                k = seen_begins[0]; seen_begins[0] += 1
+                if k == refuse[1]:
+                    ev['outcome'] = 'OperationalError'; ev['injected'] = True
+                    raise sqlite3.OperationalError('database is locked')
     if case['fine']:
         def before(ev):
             i = sched.me()
             if i is not None and ev['i'] is not None: sched.yield_(i, 'call', [ev['call'], ev['kind']])
         tr.before_call.append(before)
+    if refuse: tr.before_call.append(refuse_begin)       # after the hand-off hook: the refusal happens when the call is performed
 
     crash = {}
     def worker(i):
@@ -255,13 +271,18 @@ def run_case(workdir, case):
         sched.wait_turn(i)
         exc = None
         cur = [0]
+        have = set()               # objects this session has loaded
         try:
             with E.db_session(**MODES[th['mode']][0]):
                 for j, act in enumerate(th['prog']):
                     cur[0] = j
                     if act[0] == 'commit': break
                     if act[0] == 'rollback': raise Abort()
-                    v = do_action(E, act)
+                    if act[0] == 'update' and act[1] not in have:
+                        v = 'skipped'          # every locking load of the object was refused: the application has nothing to change
+                    else:
+                        v = do_action(E, act)
+                        if act[0] in ('read', 'lock') or (act[0] == 'trylock' and v != 'refused'): have.add(act[1])
                     sched.yield_(i, 'action', [j, v])
         except BaseException as e:
             exc = e
@@ -398,11 +419,15 @@ def oracle(case, obs):
                     if o not in seen[i]:
                         seen[i][o] = v
                         if immediate and o not in wrote[i]: stable[i][o] = v
-                elif act[0] == 'lock':
+                elif act[0] == 'trylock' and v == 'refused':
+                    pass                                   # refused and caught: nothing is locked, nothing new is known
+                elif act[0] in ('lock', 'trylock'):
                     # a locking load always queries: what it returns is what the session knows from now on (on the unchanged
                     # code a value different from an earlier read raises UnrepeatableReadError instead)
                     if o not in wrote[i]: seen[i][o] = v; stable[i][o] = v
                     else: seen[i].setdefault(o, v)
+                elif act[0] == 'update' and v == 'skipped':
+                    pass
                 elif act[0] == 'update':
                     if o not in wrote[i]: basis[i][o] = seen[i].get(o)
                     wrote[i][o] = v; seen[i][o] = v
@@ -445,7 +470,7 @@ def oracle(case, obs):
 
 def model_request(case, obs):
     """the observed scheduler steps as a model schedule + the results to expect"""
-    if any(a[0] == 'lock' and a[2] == 'get_reverse' for t in case['threads'] for a in t['prog']): return None      # oracle only
+    if any(a[0] in ('lock', 'trylock') and a[2] == 'get_reverse' for t in case['threads'] for a in t['prog']): return None      # oracle only
     sched, expect = [], []
     pos = [0] * len(case['threads'])
     for e in obs['log']:
@@ -460,6 +485,10 @@ def model_request(case, obs):
             act = th['prog'][j]; pos[i] = j + 1
             res = ['ok', None if act[0] in ('update', 'commit_mid') else v]
             val = v
+            if act[0] == 'trylock' and v == 'refused':
+                sched.append([i, ['refused']]); expect.append(['busy']); continue
+            if act[0] == 'update' and v == 'skipped':
+                sched.append([i, ['refused']]); expect.append(['busy']); continue      # a no-op step keeps model steps and scheduler steps aligned
         elif kind == 'end':
             j, outcome = payload
             act = th['prog'][j]
@@ -468,7 +497,7 @@ def model_request(case, obs):
         else:
             return None
         if act[0] == 'read': m = ['read', act[1]]
-        elif act[0] == 'lock': m = ['lock', act[1]]
+        elif act[0] in ('lock', 'trylock'): m = ['lock', act[1]]
         elif act[0] == 'update':
             # the value written is data of the run (obj.x + 1 of what the session holds); on a failed/blocked UPDATE use the intended one
             m = ['update', act[1], val if val is not None else 0]
@@ -493,6 +522,7 @@ def model_request_fine(case, obs):
     threads = case['threads']
     if any(t['dom'] != 0 for t in threads): return None
     if any(a[0] == 'lock' and a[2] == 'get_reverse' for t in threads for a in t['prog']): return None
+    if any(a[0] == 'trylock' for t in threads for a in t['prog']): return None     # a refused BEGIN has no linearisation point of its own
     n = len(threads)
     fail_at = [None] * n
     for e in obs['log']:
@@ -566,11 +596,11 @@ def check_model(ctx, case, obs, req_expect, m):
 
 
 def case_json(case):
-    return {'threads': case['threads'], 'schedule': case['schedule'], 'fine': case['fine']}
+    return dict({'threads': case['threads'], 'schedule': case['schedule'], 'fine': case['fine']}, **({'refuse': case['refuse']} if case.get('refuse') else {}))
 
 
 def case_key(kind, case):
-    return '%s:%s' % (kind, json.dumps([[[t['mode'], t['dom'], t['prog']] for t in case['threads']], case['schedule'], case['fine']], separators=(',', ':')))
+    return '%s:%s' % (kind, json.dumps([[[t['mode'], t['dom'], t['prog']] for t in case['threads']], case['schedule'], case['fine'], case.get('refuse')], separators=(',', ':')))
 
 
 # ---------------------------------------------------------------------------------------------------------------------
@@ -640,6 +670,25 @@ WITNESSES = [
 ]
 
 
+def retry_locker(variant, variant2=None, mode='optimistic', pre_read=True):
+    """a locking load whose refusal ("database is locked") the application catches, retried in the same session"""
+    prog = ([['read', 1]] if pre_read else []) + [['trylock', 1, variant], ['trylock', 1, variant2 or variant], ['update', 1, 'inc'], C]
+    return P(mode, prog)
+
+# (name, threads, refuse): refuse = [thread, n] -> the n-th BEGIN IMMEDIATE of that thread is refused by fault injection; None -> the
+# refusal has to come from a session of a second Database object (lock domain 1) that holds SQLite's write lock at that moment
+REFUSED = [
+    ('refused-relock-vs-foreign', [retry_locker('get'), opt_writer(dom=1)], [0, 0]),
+    ('refused-relock-vs-foreign-pessimistic', [retry_locker('query', 'get_unique'), mode_writer('pessimistic', dom=1)], [0, 0]),
+    ('refused-relock-vs-local', [retry_locker('get_composite'), opt_writer()], [0, 0]),
+    ('refused-relock-noread', [retry_locker('get_nowait', pre_read=False), opt_writer(dom=1)], [0, 0]),
+    ('refused-relock-immediate', [retry_locker('get', mode='immediate', pre_read=False), opt_writer(dom=1)], [0, 0]),
+    ('refused-second-begin', [P('optimistic', [['lock', 1, 'get'], ['update', 1, 'inc'], CM('commit'), ['trylock', 1, 'get'], ['trylock', 1, 'query'],
+                                               ['update', 1, 'inc'], C]), opt_writer(dom=1)], [0, 1]),
+    ('refused-by-foreign-locker', [retry_locker('get'), P('optimistic', [['lock', 1, 'get'], ['update', 1, 'inc'], C], 1), opt_writer(dom=1)], None),
+    ('refused-by-foreign-locker-local-contender', [retry_locker('query_skip'), P('optimistic', [['lock', 1, 'query'], ['update', 1, 'inc'], C], 1), opt_writer()], None),
+]
+
 def interleavings(lens):
     """all sequences of thread picks in which thread i is picked lens[i] times"""
     total = sum(lens)
@@ -656,8 +705,8 @@ def interleavings(lens):
 def generate(ctx):
     rng = ctx.rng
     cases = []
-    def add(name, threads, schedule, fine):
-        cases.append({'id': len(cases), 'name': name, 'threads': threads, 'schedule': schedule, 'fine': fine})
+    def add(name, threads, schedule, fine, refuse=None):
+        cases.append({'id': len(cases), 'name': name, 'threads': threads, 'schedule': schedule, 'fine': fine, 'refuse': refuse})
     for name, threads in PAIRS:
         lens = [len(t['prog']) for t in threads]
         alls = list(interleavings(lens))
@@ -669,6 +718,21 @@ def generate(ctx):
             a = rng.randint(0, 14); b = rng.randint(1, 14)
             add(name, threads, [0] * a + [1] * b + [0] * 40 + [1] * 40, True)
             add(name, threads, [rng.randint(0, 1) for _ in range(80)], True)
+    # a refused BEGIN IMMEDIATE of a locking load, caught by the application, then the retry and a contender
+    for name, threads, refuse in REFUSED:
+        lens = [len(t['prog']) for t in threads]
+        if len(threads) == 2:
+            alls = list(interleavings(lens))
+            if len(alls) > (40 if ctx.thorough else 10): alls = [alls[0], alls[-1]] + rng.sample(alls[1:-1], (38 if ctx.thorough else 8))
+        else:
+            # the foreign locker holds the lock while the retrying session asks for it the first time; then random continuations
+            alls = []
+            for k in range(ctx.scale(8, 40)):
+                tail = [i for i, l in enumerate(lens) for _ in range(l)]; rng.shuffle(tail)
+                alls.append([0, 1, 0] + tail)
+        for sch in alls: add(name, threads, sch, False, refuse)
+        for k in range(ctx.scale(3, 20)):
+            add(name, threads, [rng.randint(0, len(threads) - 1) for _ in range(120)], True, refuse)
     for name, threads in TRIPLES:
         lens = [len(t['prog']) for t in threads]
         for k in range(ctx.scale(10, 150)):
@@ -793,9 +857,13 @@ def evaluate(ctx, cases, res):
     reqs, idx = [], []
     for c in cases:
         obs = res[c['id']]
-        if 'harness_crash' in obs: raise RuntimeError('harness crashed on %r:\n%s' % (case_json(c), obs['harness_crash']))
-        if obs.get('crash'): raise RuntimeError('worker crashed on %r:\n%s' % (case_json(c), obs['crash']))
-        ctx.case([[[t['mode'], t['dom'], t['prog']] for t in c['threads']], c['schedule'], c['fine']], nontrivial=True,
+        if 'harness_crash' in obs:
+            ctx.divergence('the real code raised outside the sessions under test (setup / teardown of the case)', case_json(c), impl=str(obs['harness_crash'])[-1500:])
+            continue
+        if obs.get('crash'):
+            ctx.divergence('a session thread died with a non-Exception', case_json(c), impl=str(obs['crash'])[-1500:])
+            continue
+        ctx.case([[[t['mode'], t['dom'], t['prog']] for t in c['threads']], c['schedule'], c['fine'], c.get('refuse')], nontrivial=True,
                  kind=('fine:' if c['fine'] else 'coarse:') + c['name'])
         for kind, text, detail in oracle(c, obs):
             if kind == 'harness': raise RuntimeError('%s on %r' % (text, case_json(c)))
@@ -812,7 +880,8 @@ def evaluate(ctx, cases, res):
         for t in c['threads']:
             ctx.count('mode:' + t['mode']); ctx.count('domain:%d' % t['dom'])
             for a in t['prog']:
-                if a[0] == 'lock': ctx.count('lock-variant:' + a[2])
+                if a[0] in ('lock', 'trylock'): ctx.count('lock-variant:' + a[2])
+                if a[0] == 'trylock': ctx.count('trylock')
                 if a[0] == 'commit_mid': ctx.count('mid-commit:%s:%s' % (a[1], t['mode']))
         if obs['problem'] is None and ctx.driver.ok:
             re_ = model_request_fine(c, obs) if c['fine'] else model_request(c, obs)
@@ -842,7 +911,7 @@ def replay(ctx, data):
     if 'threads' not in inp: return run(ctx)
     workdir = ponyutil.workdir('c35')
     try:
-        case = {'id': 0, 'name': 'replay', 'threads': inp['threads'], 'schedule': inp['schedule'], 'fine': inp['fine']}
+        case = {'id': 0, 'name': 'replay', 'threads': inp['threads'], 'schedule': inp['schedule'], 'fine': inp['fine'], 'refuse': inp.get('refuse')}
         evaluate(ctx, [case], {0: run_case_thread(workdir, case)})
     finally:
         ponyutil.rmtree(workdir)
